@@ -8,6 +8,7 @@ import (
 	"encoding/json"
 	"fmt"
 	"os"
+	"sort"
 	"strconv"
 	"strings"
 	"sync"
@@ -26,23 +27,23 @@ import (
 
 // Case result emitted by a worker (one JSON line).
 type Result struct {
-	Prog      int      `json:"prog"`
-	Shape     string   `json:"shape"`
-	Site      string   `json:"site"` // label#ord, "" for fault-free / rollback cases
-	Label     string   `json:"label"`
-	Form      string   `json:"form"` // commit | rollback | fail-before | fail-after | refuse
-	Fired     int      `json:"fired"`
-	CommitErr string   `json:"commit_err"`
-	Committed bool     `json:"committed"`
-	WarmDiff  string   `json:"warm_diff"`  // "" = dump equals the state the Commit result demands
-	RetryErr  string   `json:"retry_err"`  // C07: error of the fault-free retry ("" ok / "n/a")
-	RetryDiff string   `json:"retry_diff"` // C07: dump after retry vs after
-	Dir       string   `json:"dir"`
-	Expect    string   `json:"expect"` // before | after  (what the cold dump must equal)
+	Prog      int          `json:"prog"`
+	Shape     string       `json:"shape"`
+	Site      string       `json:"site"` // label#ord, "" for fault-free / rollback cases
+	Label     string       `json:"label"`
+	Form      string       `json:"form"` // commit | rollback | fail-before | fail-after | refuse
+	Fired     int          `json:"fired"`
+	CommitErr string       `json:"commit_err"`
+	Committed bool         `json:"committed"`
+	WarmDiff  string       `json:"warm_diff"`  // "" = dump equals the state the Commit result demands
+	RetryErr  string       `json:"retry_err"`  // C07: error of the fault-free retry ("" ok / "n/a")
+	RetryDiff string       `json:"retry_diff"` // C07: dump after retry vs after
+	Dir       string       `json:"dir"`
+	Expect    string       `json:"expect"` // before | after  (what the cold dump must equal)
 	Program   *txn.Program `json:"program,omitempty"`
-	Census    []string `json:"census,omitempty"`
-	Harness   string   `json:"harness,omitempty"` // harness-level problem => inconclusive
-	Ms        int64    `json:"ms"`
+	Census    []string     `json:"census,omitempty"`
+	Harness   string       `json:"harness,omitempty"` // harness-level problem => inconclusive
+	Ms        int64        `json:"ms"`
 }
 
 func init() {
@@ -52,15 +53,16 @@ func init() {
 
 // Config of a worker run.
 type Config struct {
-	Seed    int64    `json:"seed"`
-	Prog    int      `json:"prog"`
-	Shape   string   `json:"shape"`
-	Forms   []string `json:"forms"` // fault forms to enumerate at every census site
-	Retry   bool     `json:"retry"` // C07: fault-free retry of the same program
-	Base    string   `json:"base"`  // scratch base dir for this worker
-	Profile string   `json:"profile"`
-	Slot    int      `json:"slot"`
-	MaxSites int     `json:"max_sites"` // 0 = all
+	Seed     int64    `json:"seed"`
+	Prog     int      `json:"prog"`
+	Shape    string   `json:"shape"`
+	Forms    []string `json:"forms"` // fault forms to enumerate at every census site
+	Retry    bool     `json:"retry"` // C07: fault-free retry of the same program
+	Base     string   `json:"base"`  // scratch base dir for this worker
+	Profile  string   `json:"profile"`
+	Slot     int      `json:"slot"`
+	MaxSites int      `json:"max_sites"`      // 0 = all
+	Aged     bool     `json:"aged,omitempty"` // every baseline node was updated by an earlier committed transaction
 }
 
 func specsFor(cfg Config) []txn.Spec {
@@ -91,6 +93,21 @@ func runCase(cfg Config, n int, label string, ord int, form string) Result {
 	if err := txn.Commit(pub, basep, time.Minute); err != nil {
 		res.Harness = "baseline commit failed: " + err.Error()
 		return res
+	}
+	if cfg.Aged {
+		// rewrite every baseline item with the value it already has: same content, but every leaf has been
+		// through an update commit (both physical ids of its handle have been used)
+		var age txn.Program
+		for _, sp := range specs {
+			for k, v := range before[sp.Name] {
+				age.Ops = append(age.Ops, txn.Op{Store: sp.Name, Kind: "update", K: k, V: v})
+			}
+		}
+		sort.Slice(age.Ops, func(a, b int) bool { return age.Ops[a].Store+age.Ops[a].K < age.Ops[b].Store+age.Ops[b].K })
+		if err := txn.Commit(pub, age, time.Minute); err != nil {
+			res.Harness = "ageing commit failed: " + err.Error()
+			return res
+		}
 	}
 	// the program is a pure function of (seed, prog, shape): identical for every site of this worker
 	rnd := env.Rand(cfg.Seed, fmt.Sprintf("atom-%d-%s", cfg.Prog, cfg.Shape))
